@@ -22,7 +22,7 @@ import os
 import re
 
 from vlib.hostlist import hx, unhx, LIMIT, parse_probe, parse_spec
-from vlib.printcheck import (Gen, PrintRunner, PrintCli, FIXED, Rec, small_scope, parse_dump, parse_sweep, judge_sweep, all_hosts,
+from vlib.printcheck import (Gen, PrintRunner, PrintCli, FIXED, Rec, small_scope, start_pdsh_builds, stop_pdsh_builds, parse_dump, parse_sweep, judge_sweep, all_hosts,
                              parseback_signature, exact_fill, meta_name, meta_prefix, big_range, long_name)
 from vlib.seqrun import run_batch
 
@@ -83,10 +83,17 @@ def run(ctx):
                    "expanded text has >= 3 hosts; distinct = distinct record dump"}
     dist = {"calls": 0, "fits": 0, "truncating": 0, "exact-boundary": 0, "boundary": {}, "lists": 0, "exact-mode-lists": 0,
             "parseback": 0, "parseback-independent": 0, "cli": 0, "skipped-build-failed": 0, "origin": {}}
+    builds = None
     if pr.build():
+        if not (ctx.replay and replay_case is not None and replay_case.get("origin") != "cli"):
+            builds = start_pdsh_builds(ctx)      # both pdsh builds, in the background, for the CLI part
         variant = pr.probe_variant()
         cov["variant_detected"] = {"D14 repaired (ret >= m)": variant == "fixed"}
         ctx.log("hostlist_deranged_string behaves as the `%s` variant: the model runs with that switch" % variant)
+        nrv = pr.probe_nextrange()
+        cov["variant_detected"]["F14-NEXTRANGE repaired (_iterator_advance_range guards hr[idx])"] = nrv == "fixed"
+        ctx.log("hostlist_next_range behaves as the `%s` variant: %s" % (nrv, "every list is iterated to its NULL"
+                if nrv == "fixed" else "the final call is not made when the record array is full"))
         gen = Gen(rng, cap=900 if ctx.quick() else 2000)
         cases = []
         if replay_case is not None:
@@ -98,8 +105,9 @@ def run(ctx):
             cases.append({"origin": "corpus", "ops": ["create " + hx(b"foo[1-2]-[0-1]")], "desc": "foo[1-2]-[0-1]"})
             # ONE bracket group whose text has 1022..1025 bytes: the fixed buffers of hostlist_shift_range (1024) and
             # hostlist_pop_range / hostlist_next_range (MAXHOSTRANGELEN) at their boundary
-            for plen in (21, 22, 23, 24):
-                s = b"g" * plen + b"[" + b",".join(b"%d" % k for k in range(101, 601, 2)) + b"]"
+            # (48 twenty-digit numbers: a long group text with few hosts keeps the expanded text, and its sweep, short)
+            for plen in (13, 14, 15, 16):
+                s = b"g" * plen + b"[" + b",".join(b"%d" % (10 ** 19 + 2 * k) for k in range(48)) + b"]"
                 cases.append({"origin": "corpus", "ops": ["create " + hx(s)], "desc": "one group of %d bytes" % len(s)})
             cases.extend(small_scope(2 if ctx.quick() else 3))
             if not ctx.quick():
@@ -118,9 +126,10 @@ def run(ctx):
         if replay_case is None:
             big_lists(ctx, pr, dist)
             dist["generator"] = gen.dist
-            cli_check(ctx, pr, gen, dist, cov)
+            cli_check(ctx, pr, gen, dist, cov, builds=builds)
         elif replay_case.get("origin") == "cli":
-            cli_check(ctx, pr, Gen(rng, 900), dist, cov, only=replay_case)
+            cli_check(ctx, pr, Gen(rng, 900), dist, cov, only=replay_case, builds=builds)
+    stop_pdsh_builds(builds)
     cov["evaluations"] = dist["calls"]
     cov["distribution"] = dist
     cov["traces_validated_against_impl"] = dist["calls"]
@@ -243,9 +252,16 @@ def sweep_lists(ctx, pr, cases, exact, cov, dist):
                         ctx.offender("%s-asan:%s%s" % (kname(kind), cls, fill),
                                      "hostlist_%s_string into an exact-size heap buffer of %s bytes: ASan reports %s" %
                                      (kname(kind), nn, cls), dict(case, kind=kname(kind), n=nn))
-        # hostlist_shift_range / hostlist_pop_range until NULL (fixed stack buffers inside hostlist.c, under ASan)
-        for which, fn in (("s", "hostlist_shift_range"), ("p", "hostlist_pop_range")):
+        # hostlist_shift_range / hostlist_pop_range / hostlist_next_range until NULL (fixed stack buffers inside hostlist.c,
+        # under ASan)
+        for which, fn in (("s", "hostlist_shift_range"), ("p", "hostlist_pop_range"), (pr.OPS[pr.NR][-1], "hostlist_next_range")):
             ir, mr = names["pranges " + which], mnames["pranges " + which]
+            if which in "nN" and ir.endswith("!end-read-past-hr"):
+                # the call that would return NULL reads hl->hr[nranges] with the array full (the harness does not make it)
+                ir = ir[:-len("!end-read-past-hr")]
+                ctx.offender("next-range-end-read-past-hr:nranges=size",
+                             "hostlist_next_range: the call that ends the iteration reads hl->hr[%d] of a full array of %d records"
+                             % (len(recs), len(recs)), dict(case, nranges=len(recs)))
             dist["range-calls"] = dist.get("range-calls", 0) + (0 if ir == "none" else ir.count("|") + 1)
             if ir != mr:
                 ctx.disagreement("print model vs hostlist.c (%s until NULL)" % fn, "impl `%s` model `%s`" % (ir[:200], mr[:200]), case)
@@ -331,10 +347,10 @@ def crash_class(txt):
 
 
 # --------------------------------------------------------------------------------------------------------------
-def cli_check(ctx, pr, gen, dist, cov, only=None):
+def cli_check(ctx, pr, gen, dist, cov, only=None, builds=None):
     """the two fixed callers in the pdsh binary: opt_list's wcoll_str[1024] (-q ranged, -Q deranged) and
     list_push_hostlist's 4096-byte exclusion text (-w -^file)"""
-    cli = PrintCli(ctx)
+    cli = PrintCli(ctx, builds)
     if not cli.pdsh:
         return
     rng = ctx.rng
